@@ -15,13 +15,13 @@ def partial_perm(r1, r2, rng, full=False):
     return pairs
 
 
-def gen_tt_pattern(N, R, rng, M=None, dense_slices=False):
+def gen_tt_pattern(N, R, rng, M=None, dense_slices=False, skip=0.25):
     pats = []
     for k in range(len(N)):
         p = []
         idx = [(i,) for i in range(N[k])] if M is None else [(i, j) for i in range(M[k]) for j in range(N[k])]
         for mid in idx:
-            if rng.random() < 0.25 and len(idx) > 1:
+            if rng.random() < skip and len(idx) > 1:
                 continue
             for a, b in partial_perm(R[k], R[k + 1], rng, full=dense_slices):
                 p.append((a,) + mid + (b,))
